@@ -618,8 +618,9 @@ pub fn template(r: &mut Rng) -> Case {
             Case { entry: 3, bytes, aux: vec![(b"Filter".to_vec(), RObj::Name(b"ASCII85Decode".to_vec()))], text: vec![], origin: "template:a85-boundary".into() }
         }
         9 => {
-            // CMap ranges <00000000><FFFFFFFF> with short arrays / overflowing last unit
-            let body: &[u8] = *r.pick(&[
+            // CMap ranges: extreme bounds of every code width x every target shape (single unit, several units,
+            // arrays of 0..4 elements far shorter than the range), plus a few fixed corner cases
+            let fixed: &[&[u8]] = &[
                 &b"<00000000> <FFFFFFFF> [<0041>]"[..],
                 b"<0000> <FFFF> <FFF0>",
                 b"<0000> <00FF> <D83DDFF0>",
@@ -627,7 +628,26 @@ pub fn template(r: &mut Rng) -> Case {
                 b"<0000> <0002> [<0041>]",
                 b"<0005> <0001> <0041>",
                 b"<0000> <FFFF> <0041>",
-            ]);
+            ];
+            let generated;
+            let body: &[u8] = if r.bool() {
+                *r.pick(fixed)
+            } else {
+                let w = 1 + r.usize_below(4);
+                let max = if w == 4 { u32::MAX } else { (1u32 << (8 * w)) - 1 };
+                let lo = *r.pick(&[0u32, 0, 1, max / 2, max.saturating_sub(1)]);
+                let hi = *r.pick(&[max, max, max - 1, max / 2, lo.wrapping_add(300) & max]);
+                let hexw = |v: u32| format!("{:0width$X}", v, width = 2 * w);
+                let target = match r.below(6) {
+                    0 => "<0041>".to_string(),
+                    1 => "<FFFE>".to_string(),
+                    2 => "<00660069>".to_string(),
+                    3 => "<D83DDE00>".to_string(),
+                    _ => format!("[{}]", (0..r.usize_below(5)).map(|i| format!("<{:04X}>", 0x41 + i)).collect::<Vec<_>>().join(" ")),
+                };
+                generated = format!("<{}> <{}> {}", hexw(lo), hexw(hi), target).into_bytes();
+                &generated[..]
+            };
             let cm = format!("/CIDInit /ProcSet findresource begin\n12 dict begin\nbegincmap\n/CMapName /X def\n/CMapType 2 def\n1 begincodespacerange\n<0000> <FFFF>\nendcodespacerange\n1 beginbfrange\n{}\nendbfrange\nendcmap\nCMapName currentdict /CMap defineresource pop\nend\nend\n", String::from_utf8_lossy(body));
             let text: Vec<u8> = match r.below(4) {
                 0 => vec![0, 0, 0, 5, 0xff, 0xff, 0xff, 0xff],
